@@ -31,6 +31,22 @@ CHECKS = {
          "stability of settled values is an action property of the offline machine checked on all short traces; recorded pairs compared with each other on the settled region and with the model", "4 C16"),
  "C18": ("TLC model checking of each law as an invariant Sig(lhs)=Sig(rhs) on all short traces + trace validation of both sides on the same real monitor",
          "laws are theorems of the specification's semantics; both sides run on the same real monitor (offline, online, pastified) and are compared pointwise, independent of Sig", "4 C18"),
+ "C04": ("trace validation (TraceCt) of dense-time evaluate() results against the cell-exact dense-time semantics Dense!SigC",
+         "dense-time semantics specified exactly on unit cells (integer break-points and bounds, held tail with settling extension); every recorded result must be monotone, start at the domain begin and equal SigC at every cell start and mid-point", "4 C04"),
+ "C05": ("trace validation (TraceCt contract machine) of dense-time online runs under many chunkings against Dense!SigC of the whole signal, and pairwise between chunkings",
+         "the update() contract mentions no chunking at all: concatenated outputs must denote SigC of the whole fed signal wherever defined; all-at-once, one-per-update, random and staggered per-variable schedules", "4 C05"),
+ "C08": ("Units!SamplesOf / Norm!NormAst compute the samples each written bound denotes; trace validation of 2-3 spellings per duration on offline, online, pastified and dense monitors",
+         "the physical meaning of a written bound (literal, unit suffix on either end, default unit, period unit) is computed by the specification, each spelling validated against the model and spellings against each other; non-multiples must raise RTAMTException", "4 C08"),
+ "C14": ("Lang!Derivable (token-level recogniser of the grammar) and Lang!StaticOK decide legitimacy of every parse() acceptance recorded from exhaustive short and random/mutated token strings",
+         "all token strings up to length L over one representative per class plus random and mutated specifications; outcome must be success or RTAMTException, success only for derivable texts with well-formed intervals; termination by time limit", "4 C14"),
+ "C15": ("Lang!ParseAssertion (precedence parser derived from the alternative order of StlParser.g4) produces the AST of each spelling; trace validation of read-back AST and results against the canonical spelling",
+         "spelling variants (aliases, separators, minimal/redundant parentheses, optional head and ';', LTL front end, unless sugar) generated per AST; the grammar model must parse them to that AST and the real parser must agree in AST and results", "4 C15"),
+ "C17": ("outcome machine of the specification (ok / RTAMTException per public call) validated against recorded outcome classes on six monitor kinds and degenerate data shapes",
+         "supportedness per monitor kind is a predicate of the specification (CanUpdate, Pastifiable, DenseOK, OnlineCtOK); any other exception class or a value from an unsupported construct is a violation", "4 C17"),
+ "C19": ("TLC model checking of theorem DenseEqDiscrete (SigC = Sig at sampling instants) + trace validation of the real dense vs real discrete monitors on aligned data",
+         "agreement is a theorem of the two semantics checked on all short traces; the two real monitors are compared on the same grid-aligned data for periods 1-3", "4 C19"),
+ "C20": ("trace validation of explain() reports: TLC enumerates every re-assignment of unreported samples over region representatives and evaluates Sem!Sat",
+         "sufficient cause is checked exhaustively per recorded report over all region-representative re-assignments of the unreported positions (traces up to 3 samples, 2 variables)", "4 C20"),
 }
 checks = []
 for pid, (tech, text, ref) in sorted(CHECKS.items()):
@@ -46,5 +62,7 @@ m = {"version": 1,
      "checks": checks,
      "notes": "see DESIGN.md; known findings in known_findings.json",
      "not_applicable": [{"property_id": p["id"], "reason": "check not built yet (work in progress)"} for p in props if p["id"] not in CHECKS]}
+if not m["not_applicable"]:
+    del m["not_applicable"]
 json.dump(m, open(os.path.join(V, "MANIFEST.json"), "w"), indent=1)
 print("checks:", len(checks))
